@@ -219,35 +219,54 @@ func checkCommitAppliesEveryOp(p *Prog, r *Roles, res *Result, rule string) {
 		return
 	}
 	n := 0
-	for _, b := range commit.Blocks {
-		for _, ins := range b.Instrs {
-			nx, ok := ins.(*ssa.Next)
-			if !ok {
-				continue
+	// the loop may live in a helper that Commit calls
+	var scope []*ssa.Function
+	seenFn := map[*ssa.Function]bool{}
+	var collect func(f *ssa.Function, d int)
+	collect = func(f *ssa.Function, d int) {
+		if f == nil || f.Blocks == nil || seenFn[f] || d > 2 || f.Pkg != commit.Pkg {
+			return
+		}
+		seenFn[f] = true
+		scope = append(scope, f)
+		for _, c := range callsIn(f) {
+			if _, isGo := c.(*ssa.Go); !isGo {
+				collect(c.Common().StaticCallee(), d+1)
 			}
-			rg, ok := nx.Iter.(*ssa.Range)
-			if !ok {
-				continue
-			}
-			if _, isMap := rg.X.Type().Underlying().(*types.Map); !isMap {
-				continue
-			}
-			n++
-			construct := fmt.Sprintf("%s: every staged operation is applied to the skip list (loop #%d)", funcName(commit), n)
-			pa := posOf(nx)
-			// (helpers of the package that the loop body calls are followed)
-			region := &fnRegion{root: commit, descend: func(g *ssa.Function) bool { return g.Pkg == commit.Pkg && g.Synthetic == "" }}
-			skipped, _, _ := region.search(&frame{fn: commit}, pa.b, pa.i+1, superOpts{
-				stop: func(i ssa.Instruction, _ *frame) bool {
-					c, ok := i.(ssa.CallInstruction)
-					return ok && isEngineCall(c, "Remove", "Set", "RemoveElement")
-				},
-				bad: func(i ssa.Instruction, _ *frame) bool { return i == ssa.Instruction(nx) },
-			})
-			if skipped != nil {
-				res.bad(rule, construct, p.pos(nx.Pos()), "an iteration of the apply loop can reach the next staged operation without a Remove or Set on the skip list: the batch is acknowledged although one of its writes (e.g. every write that carries a ttl) was never stored")
-			} else {
-				res.ok(rule, construct, p.pos(nx.Pos()), "each iteration passes skl.Remove or skl.Set")
+		}
+	}
+	collect(commit, 0)
+	for _, host := range scope {
+		for _, b := range host.Blocks {
+			for _, ins := range b.Instrs {
+				nx, ok := ins.(*ssa.Next)
+				if !ok {
+					continue
+				}
+				rg, ok := nx.Iter.(*ssa.Range)
+				if !ok {
+					continue
+				}
+				if _, isMap := rg.X.Type().Underlying().(*types.Map); !isMap {
+					continue
+				}
+				n++
+				construct := fmt.Sprintf("%s: every staged operation is applied to the skip list (loop #%d)", funcName(commit), n)
+				pa := posOf(nx)
+				// (helpers of the package that the loop body calls are followed)
+				region := &fnRegion{root: host, descend: func(g *ssa.Function) bool { return g.Pkg == commit.Pkg && g.Synthetic == "" }}
+				skipped, _, _ := region.search(&frame{fn: host}, pa.b, pa.i+1, superOpts{
+					stop: func(i ssa.Instruction, _ *frame) bool {
+						c, ok := i.(ssa.CallInstruction)
+						return ok && isEngineCall(c, "Remove", "Set", "RemoveElement")
+					},
+					bad: func(i ssa.Instruction, _ *frame) bool { return i == ssa.Instruction(nx) },
+				})
+				if skipped != nil {
+					res.bad(rule, construct, p.pos(nx.Pos()), "an iteration of the apply loop can reach the next staged operation without a Remove or Set on the skip list: the batch is acknowledged although one of its writes (e.g. every write that carries a ttl) was never stored")
+				} else {
+					res.ok(rule, construct, p.pos(nx.Pos()), "each iteration passes skl.Remove or skl.Set")
+				}
 			}
 		}
 	}
